@@ -31,7 +31,7 @@ ASSUMPTIONS = [
 def body(v, seg, n=1):
     if seg == 'MSH':
         return None
-    if tables.has_gap(v, seg) or tables.row_anomalies(v, seg):
+    if tables.row_anomalies(v, seg):
         return seg
     rows = [(i, fr) for i, fr in tables.field_rows(v, seg) if i]
     if not rows:
@@ -179,7 +179,7 @@ def excess_unit(v, res):
         res.states += 1
         res.enumerated += 1
         res.nontrivial += 1
-        judge(res, v, name, '\r'.join([st.msh_line(v, name), 'EVN', line, 'PV1']) if not tables.has_gap(v, 'PID') else
+        judge(res, v, name, '\r'.join([st.msh_line(v, name), 'EVN', line, 'PV1']) if True else
               '\r'.join([st.msh_line(v, name), line]), 'excess:' + tag, 3)
     res.dims['excess lines'] += len(cases)
 
